@@ -20,6 +20,7 @@ import (
 	storetypes "cosmossdk.io/store/types"
 	sdk "github.com/cosmos/cosmos-sdk/types"
 	authtypes "github.com/cosmos/cosmos-sdk/x/auth/types"
+	govtypes "github.com/cosmos/cosmos-sdk/x/gov/types"
 
 	coinswaptypes "mods.irisnet.org/modules/coinswap/types"
 	farmkeeper "mods.irisnet.org/modules/farm/keeper"
@@ -37,6 +38,7 @@ const (
 	accCOLL = 101
 	accFEEC = 102
 	accBURN = 103
+	accAUTH = 104 // the authority of MsgUpdateParams (the gov module account); holds no coins, not observed
 )
 
 type Rule struct {
@@ -62,6 +64,8 @@ type Op struct {
 	Rpb      []Coin `json:"rpb,omitempty"`
 	N        int    `json:"n,omitempty"` // next: number of blocks; toend: offset added to the end height
 	Smart    bool   `json:"smart,omitempty"` // retarget at execution: a farmer who has stake / a pool that is running
+	Fee      string `json:"fee,omitempty"`   // params: pool creation fee (amount of stake); Who < 0 = the authority
+	Tax      string `json:"tax,omitempty"`   // params: tax rate in units of 10^-18
 }
 type History struct{ Steps []Op }
 
@@ -209,7 +213,24 @@ func gen(r *lib.Rand, tier, stream string, i int) History {
 	}
 	pid := func() int { return 1 + r.Intn(npools) }
 	for k := 0; k < n; k++ {
-		switch r.Weighted(30, 18, 14, 26, 6, 1, 2, 3, 3, 5) {
+		switch r.Weighted(30, 18, 14, 26, 6, 1, 2, 3, 3, 5, 3) {
+		case 10: // a parameter change (creation fee / tax rate), mostly by the authority, mostly valid; often a pool is created right after
+			op := Op{K: "params", Who: -1,
+				Fee: []string{"0", "1", "7", "5000", "4999", "123456789", "1000000000000000000000000"}[r.Intn(7)],
+				Tax: []string{"400000000000000000", "1", "999999999999999999", "333333333333333333", "500000000000000000", "100000000000000000"}[r.Intn(6)]}
+			switch r.Intn(8) {
+			case 0:
+				op.Who = farmer() // not the authority
+			case 1:
+				op.Tax = []string{"0", "1000000000000000000", "-1", "1000000000000000001"}[r.Intn(4)]
+			case 2:
+				op.Fee = []string{"-1", "57896044618658097711785492504343953926634992332820282019728792003956564819968"}[r.Intn(2)] // negative, 2^255
+			}
+			h.Steps = append(h.Steps, op)
+			if npools < 4 && r.Chance(2, 3) {
+				h.Steps = append(h.Steps, genCreate(r, []int{0, 0, 2}[r.Intn(3)]))
+				npools++
+			}
 		case 9: // operations in exactly the pool's last block, at least one block after the last settlement
 			pp := pid()
 			h.Steps = append(h.Steps, Op{K: "toend", Pid: pp, N: 0})
@@ -694,6 +715,18 @@ func (v *env) resolve(op Op, s snapshot) []concrete {
 		return []concrete{{term: lib.App("Msg", lib.App("Harvest", lib.Z(int64(op.Who)), lib.Z(int64(op.Pid)))),
 			text: fmt.Sprintf("harvest %d pool %d", op.Who, op.Pid), kind: "harvest", who: op.Who, pid: op.Pid,
 			msg: &farmtypes.MsgHarvest{PoolId: pidStr, Sender: v.addrs[op.Who].String()}}}
+	case "params":
+		auth, whoTerm := authtypes.NewModuleAddress(govtypes.ModuleName).String(), int64(accAUTH)
+		if op.Who >= 0 {
+			auth, whoTerm = v.addrs[op.Who].String(), int64(op.Who)
+		}
+		fee, tax := bigOf(op.Fee), bigOf(op.Tax)
+		ps := v.k.GetParams(v.e.Ctx)
+		ps.PoolCreationFee = sdk.Coin{Denom: "stake", Amount: sdkmath.NewIntFromBigInt(fee)}
+		ps.TaxRate = sdkmath.LegacyNewDecFromBigIntWithPrec(tax, 18)
+		return []concrete{{term: lib.App("Msg", lib.App("UpdateParams", lib.Z(whoTerm), lib.ZB(fee), lib.ZB(tax))),
+			text: fmt.Sprintf("params by %d: fee %s tax %s/10^18", whoTerm, fee, tax), kind: "params", who: op.Who,
+			msg: &farmtypes.MsgUpdateParams{Authority: auth, Params: ps}}}
 	case "destroy":
 		return []concrete{{term: lib.App("Msg", lib.App("Destroy", lib.Z(int64(op.Who)), lib.Z(int64(op.Pid)))),
 			text: fmt.Sprintf("destroy pool %d by %d", op.Pid, op.Who), kind: "destroy", who: op.Who, pid: op.Pid,
@@ -774,6 +807,7 @@ func exec(h History) lib.Case {
 	var steps []string
 	fair := map[fairKey]*big.Rat{}
 	overlap, fractional := false, false
+	paramsChanged := false
 
 	runOne := func(cs concrete) {
 		var code int
@@ -793,6 +827,14 @@ func exec(h History) lib.Case {
 			code = o.Code()
 			lib.Stat(c.Stats, "op:"+cs.kind)
 			lib.Stat(c.Stats, "res:"+o.Kind)
+			if cs.kind == "params" {
+				lib.Stat(c.Stats, "params:"+o.Kind)
+				if o.OK() {
+					paramsChanged = true
+				}
+			} else if cs.kind == "create" && paramsChanged {
+				lib.Stat(c.Stats, "create-after-params:"+o.Kind)
+			}
 			if o.OK() {
 				switch r := o.Resp.(type) {
 				case *farmtypes.MsgStakeResponse:
